@@ -124,6 +124,12 @@ def judge_key(ctx, rng, curve, secret, light=False):
             if not E.verify(curve, pub, raw, m_bytes):
                 ctx.violation('C07|independent-verifier-rejects|%s|%s' % (cn, mkind), 'sig=%s over %d message bytes' % (sig, len(m_bytes)), case)
                 continue
+            if generic and curve != b'BL' and not (light and mi):
+                # the generic spelling `sig...` of a valid signature is as valid as the curve-specific one
+                cs = check_signature(ctx, key.public_key(), sig, m_bytes)
+                ctx.count('CHECK_SIGNATURE_on_generic_spelling')
+                if cs != ('ok', True):
+                    ctx.violation('C07|CHECK_SIGNATURE-rejects-valid|generic-spelling|' + cn, repr(cs)[:300], case)
             if generic or (light and mi):
                 continue
             # CHECK_SIGNATURE on the valid triple
